@@ -123,13 +123,19 @@ func (hm *HashMap) Query(q *query.Query, local, internal bool) (*iterator.Iterat
 }
 
 func (hm *HashMap) queryExecutor(queryIter *iterator.Iterator, q *query.Query, local, internal bool) {
+	// Work on a snapshot of the map: writers lock the record before the map,
+	// so locking records while holding the map lock can deadlock with them.
 	hm.dbLock.RLock()
-	defer hm.dbLock.RUnlock()
+	records := make(map[string]record.Record, len(hm.db))
+	for key, r := range hm.db {
+		records[key] = r
+	}
+	hm.dbLock.RUnlock()
 
 	var err error
 
 mapLoop:
-	for key, record := range hm.db {
+	for key, record := range records {
 		record.Lock()
 		if !q.MatchesKey(key) ||
 			!q.MatchesRecord(record) ||
